@@ -20,8 +20,8 @@ EXPLANATION = (
     "C14.4 create_dir_all: every Ok of the helper is dominated by a mkdir of the whole path, a failing mkdir is only forgiven for EEXIST, and each ancestor prefix ends at a separator it temporarily replaced by NUL and restores; "
     "C14.5 remove_all descends only into entries whose d_type is Directory and which are not `.`/`..`, removes everything else with unlink_at relative to its own descriptor WITHOUT AT_REMOVEDIR (links are removed, never followed), "
     "removes a sub-directory with AT_REMOVEDIR only after the recursion returned, uses the entry's own name, and remove_dir_all removes the root last; "
-    "C14.6 ReadDir::next advances by exactly the parsed d_reclen, refills only when offset == read_size, hands the whole buffer to getdents and stops at 0; Dirent::try_from_bytes reads reclen at 16..18, d_type at 18, the name from 19; "
-    "DirEntry::file_type maps each DT_* to the like-named variant; C14.7 fs::write delivers with write_all, File::copy uses one offset for source and destination advanced by exactly the returned count. "
+    "C14.6 ReadDir::next advances by exactly the parsed d_reclen, refills only when offset == read_size, hands the whole buffer to getdents, that buffer holds the longest possible entry (19 + 255 + NUL, 8-aligned = 280 bytes) and iteration stops at 0; Dirent::try_from_bytes reads reclen at 16..18, d_type at 18, the name from 19; "
+    "DirEntry::file_type maps each DT_* to the like-named variant; C14.7 fs::write delivers with write_all resolved to the trait's provided loop (the one verified under C15, not an override), File::copy uses one offset for source and destination advanced by exactly the returned count. "
     "NOT decided: the post-conditions as observed on a real file system for all trees and histories, copy_file_range semantics, races with other processes.")
 ASSUMPTIONS = ["reference table = std::fs::OpenOptions semantics", "linux_dirent64 layout (ino 8, off 8, reclen 2, type 1, name)", "bool::then/Option plumbing as in std"]
 
